@@ -12,6 +12,7 @@ def main(argv=None):
     parser.add_argument("--replay")
     parser.add_argument("--quiet", action="store_true")
     parser.add_argument("--batch")
+    parser.add_argument("--digests", type=int, help="print trace digests of the first N cases")
     args = parser.parse_args(argv)
     seed = args.seed if args.seed is not None else int(os.environ.get("VERIF_SEED", "1"))
     from usimdst import runner
@@ -23,6 +24,27 @@ def main(argv=None):
         with open(args.batch) as stream:
             batch = json.load(stream)
         print("DIGESTS " + json.dumps(C02.batch_digests(batch)))
+        return 0
+    if args.digests:
+        import json
+        import gc
+        import random
+        gc.disable()
+        from usimdst import runner
+        P = runner.load_property(args.property)
+        out = []
+        for index in range(args.digests):
+            rng = random.Random(runner.case_seed(seed, args.property, index))
+            if hasattr(P, "generate_indexed"):
+                case = P.generate_indexed(index, rng, args.tier)
+            else:
+                case = P.generate(rng, args.tier)
+            if "batch" in case:
+                case["subproc"] = []
+            run = getattr(P, "run_case", None)
+            result = run(case) if run else runner.run_one(P, case)
+            out.append(result.digest)
+        print("DIGESTS " + json.dumps(out))
         return 0
     try:
         if args.replay:
